@@ -18,6 +18,11 @@ def register(PROPS, HARNESS_PKGS):
         "trace": {"module": "StreamTrace", "cfg": "Stream_trace.cfg"},
         "nontrivial": lambda s: s["kind"] != "flow" or s["chunk"] > 1,
     }
+    leak = dict(part)
+    leak.update({"name": "leak", "mc": [], "env": {"VERIF_PAR": "1"},
+                 "quick": {"gen": [g(Kinds='{"leak"}', Profiles='{"auto"}')]},
+                 "thorough": {"gen": [g(Kinds='{"leak"}', Profiles='{"auto", "streaming", "standard"}')]},
+                 "nontrivial": lambda s: True})
     PROPS["C18"] = {
         "rule": "TLC enumerates streaming scenarios: causally gated flow (the backend writes chunk k+1 only after the "
                 "client acknowledged chunk k) x chunk size x content type x profile x engine; a stall after headers / after "
@@ -26,6 +31,6 @@ def register(PROPS, HARNESS_PKGS):
                 "the measurements against Stream.tla's obligations with 3 s slack. Non-trivial = anything but 1-byte flow.",
         "exhaustive": True,
         "assumptions": ["timing margins: pause 300 ms vs timeout 1000 ms; a stall must end within 1000 + 3000 ms; cancellation within 3000 ms",
-                        "the leak clause is generated only in the thorough tier when asked for (kind 'leak')"],
-        "parts": [part],
+                        "leak clause (part leak, one stack at a time): 20 aborted streams must not add 20 goroutines (runtime.NumGoroutine after quiescence, warm-up excluded)"],
+        "parts": [part, leak],
     }
